@@ -111,9 +111,9 @@ template <std::size_t N> void resize_all(unsigned part, unsigned nparts)
           return -enc(comps<N>(p, 0));
         });
         check_cells<N>(r, new_sz, fn, [](int v) -> long { return v; }, want);
-        VRT_CHECK(!init_inside, fn + ":init_for_old_cell", "init called for a position of the old grid");
-        VRT_CHECK(calls == ref.size() - kept, fn + ":init_calls", "init called %zu times, %zu new cells", calls,
-                  ref.size() - kept);
+        // the documentation fixes the cells of the result, not when or how often _init is evaluated: information only
+        info_check(!init_inside, fn + ":init_for_old_cell");
+        info_check(calls == ref.size() - kept, fn + ":init_calls");
         check_cells<N>(old_grid, old_sz, fn + ":source_changed", [](int v) -> long { return v; },
                        [](A3 const &p) -> long { return enc(p); });
       }
@@ -150,7 +150,7 @@ template <std::size_t N> void map_fill_all()
         return 1000L + 3L * v;
       });
       check_cells<N>(r, sz, fnmap, [](long v) { return v; }, [](A3 const &p) -> long { return 1000L + 3L * enc(p); });
-      VRT_CHECK(calls == ref.size(), fnmap + ":calls", "function called %zu times for %zu cells", calls, ref.size());
+      info_check(calls == ref.size(), fnmap + ":calls"); // number of invocations is not documented
       check_cells<N>(src, sz, fnmap + ":source_changed", [](int v) -> long { return v; },
                      [](A3 const &p) -> long { return enc(p); });
     }
@@ -173,7 +173,7 @@ template <std::size_t N> void map_fill_all()
         return 5 * enc(comps<N>(p, 0));
       });
       check_cells<N>(grid, sz, fnfill, [](int v) -> long { return v; }, [](A3 const &p) -> long { return 5L * enc(p); });
-      VRT_CHECK(calls == ref.size(), fnfill + ":calls", "function called %zu times for %zu cells", calls, ref.size());
+      info_check(calls == ref.size(), fnfill + ":calls"); // number of invocations is not documented
     }
   }
 }
@@ -212,13 +212,13 @@ template <std::size_t N> void apply2_all(unsigned part, unsigned nparts)
       if (sa == sb)
       {
         check_cells<N>(r, sa, fn, [](long v) { return v; }, [](A3 const &p) -> long { return 100001L * enc(p); });
-        VRT_CHECK(calls == static_cast<std::size_t>(product(N, sa)), fn + ":calls", "function called %zu times", calls);
+        info_check(calls == static_cast<std::size_t>(product(N, sa)), fn + ":calls"); // not documented
       }
       else
       {
         VRT_CHECK(r.empty() && r.content() == 0 && r.begin() == r.end(), fn + ":not_empty",
                   "different sizes gave a grid with %zu cells", static_cast<std::size_t>(r.end() - r.begin()));
-        VRT_CHECK(calls == 0, fn + ":calls_on_mismatch", "function called %zu times although sizes differ", calls);
+        info_check(calls == 0, fn + ":calls_on_mismatch"); // only "the result is an empty grid" is documented
       }
       // rvalue first grid with move-only cells
       lgrid<N> const rm = g::apply(
